@@ -385,10 +385,8 @@ func (db *Database) processPostingsForTerm(
 		doc := &db.Commands[p.docID]
 
 		// Platform filtering (skip if AllPlatforms is enabled)
-		if !options.AllPlatforms && len(doc.Platform) > 0 {
-			if !isPlatformCompatible(doc.Platform, currentPlatform) && !isCrossPlatformTool(doc.Command) {
-				continue
-			}
+		if !platformAllowed(doc, options, currentPlatform) {
+			continue
 		}
 
 		// Pipeline filtering
@@ -583,6 +581,41 @@ func (idx *universalIndex) fieldBM25(tf, dl, avgdl, w, b float64) float64 {
 func bm25IDF(n, df int) float64 {
 	// Okapi BM25 idf with 0.5 adjustments
 	return math.Log((float64(n)-float64(df)+0.5)/(float64(df)+0.5) + 1)
+}
+
+// platformAllowed applies the platform filter requested in options to one command:
+// unless all platforms are requested, a command that declares platforms passes only
+// if one of them is a platform in force (the requested ones, otherwise the host), or -
+// unless cross-platform entries are excluded - if it is tagged cross-platform or is a
+// recognised cross-platform tool.
+func platformAllowed(doc *Command, options SearchOptions, currentPlatform string) bool {
+	if options.AllPlatforms || len(doc.Platform) == 0 {
+		return true
+	}
+	inForce := options.Platforms
+	if len(inForce) == 0 {
+		inForce = []string{currentPlatform}
+	}
+	for _, want := range inForce {
+		want = strings.ToLower(strings.TrimSpace(want))
+		if want == "darwin" || want == "osx" {
+			want = constants.PlatformMacOS
+		}
+		for _, p := range doc.Platform {
+			if strings.EqualFold(p, want) || checkPlatformVariant(p, want) {
+				return true
+			}
+		}
+	}
+	if options.NoCrossPlatform {
+		return false
+	}
+	for _, p := range doc.Platform {
+		if strings.EqualFold(p, "cross-platform") {
+			return true
+		}
+	}
+	return isCrossPlatformTool(doc.Command)
 }
 
 func isPlatformCompatible(platforms []string, current string) bool {
